@@ -367,95 +367,98 @@ func TestVerif_C09(t *testing.T) {
 		if !verifkit.Mine(ci) {
 			continue
 		}
-		r := verifkit.Rand("C09", ci)
-		e, err := c09New(ci%2 == 0)
-		if err != nil {
-			rep.Finding(ci, "C09/initial-load-failed", err.Error(), nil)
-			continue
-		}
-		var ops []c09Op
-		fp := ""
-		nontrivial := false
-		// build to a height near a boundary
-		bases := []int{0, 3, 995, 998, 999, 1000, 1001, 1004, 1998, 1999, 2000, 2001, 2005, 2999, 3001}
-		base := bases[r.Intn(len(bases))]
-		if base > 0 {
-			ops = append(ops, c09Op{Op: "add", N: base})
-		}
-		nops := 8 + r.Intn(25)
-		var viol *c09Viol
-		step := func(op c09Op) bool {
-			tipBefore := len(e.model) - 1
-			class := ""
-			if op.Op == "revert" {
-				class = e.newestFileClass()
-				if op.N/1000 != tipBefore/1000 {
-					class += "X"
+		ci := ci
+		verifkit.RunCase(rep, ci, func() {
+			r := verifkit.Rand("C09", ci)
+			e, err := c09New(ci%2 == 0)
+			if err != nil {
+				rep.Finding(ci, "C09/initial-load-failed", err.Error(), nil)
+				return
+			}
+			var ops []c09Op
+			fp := ""
+			nontrivial := false
+			// build to a height near a boundary
+			bases := []int{0, 3, 995, 998, 999, 1000, 1001, 1004, 1998, 1999, 2000, 2001, 2005, 2999, 3001}
+			base := bases[r.Intn(len(bases))]
+			if base > 0 {
+				ops = append(ops, c09Op{Op: "add", N: base})
+			}
+			nops := 8 + r.Intn(25)
+			var viol *c09Viol
+			step := func(op c09Op) bool {
+				tipBefore := len(e.model) - 1
+				class := ""
+				if op.Op == "revert" {
+					class = e.newestFileClass()
+					if op.N/1000 != tipBefore/1000 {
+						class += "X"
+					}
+					nontrivial = true
 				}
-				nontrivial = true
+				fp += op.Op[:2] + class + ","
+				rep.Event("op:"+op.Op, 1)
+				viol = e.apply(op)
+				if viol != nil {
+					rep.Finding(ci, "C09/"+viol.rule, fmt.Sprintf("%s | removeMissingIsError=%v ops=%v", viol.detail, e.store.RemoveMissingIsError, ops),
+						map[string]interface{}{"removeMissingIsError": e.store.RemoveMissingIsError, "ops": ops})
+					return false
+				}
+				return true
 			}
-			fp += op.Op[:2] + class + ","
-			rep.Event("op:"+op.Op, 1)
-			viol = e.apply(op)
-			if viol != nil {
-				rep.Finding(ci, "C09/"+viol.rule, fmt.Sprintf("%s | removeMissingIsError=%v ops=%v", viol.detail, e.store.RemoveMissingIsError, ops),
-					map[string]interface{}{"removeMissingIsError": e.store.RemoveMissingIsError, "ops": ops})
-				return false
+			ok := true
+			if r.Intn(4) == 0 {
+				// a node whose AddPeer / Scan is used before Run loads its repository several times
+				for k := 1 + r.Intn(3); ok && k > 0; k-- {
+					op := c09Op{Op: "load-again-nothing-stored"}
+					ops = append([]c09Op{op}, ops...)
+					ok = step(op)
+				}
 			}
-			return true
-		}
-		ok := true
-		if r.Intn(4) == 0 {
-			// a node whose AddPeer / Scan is used before Run loads its repository several times
-			for k := 1 + r.Intn(3); ok && k > 0; k-- {
-				op := c09Op{Op: "load-again-nothing-stored"}
-				ops = append([]c09Op{op}, ops...)
+			if base > 0 && ok {
+				ok = step(ops[len(ops)-1])
+			}
+			for i := 0; ok && i < nops; i++ {
+				tip := len(e.model) - 1
+				var op c09Op
+				switch k := r.Intn(100); {
+				case k < 35:
+					adds := []int{1, 1, 2, 3, 5, 998, 1000, 1001}
+					a := adds[r.Intn(len(adds))]
+					if tip+a > 3300 {
+						a = 1
+					}
+					op = c09Op{Op: "add", N: a}
+				case k < 70:
+					// revert target: around boundaries below tip, tip, tip-1, 0, sometimes above tip
+					cands := []int{tip, tip - 1, tip - 2, 0, 1, tip + 1}
+					for kk := 1; kk <= 3; kk++ {
+						for d := -2; d <= 2; d++ {
+							cands = append(cands, kk*1000+d)
+						}
+					}
+					var ok2 []int
+					for _, c := range cands {
+						if c >= 0 && c <= tip+1 {
+							ok2 = append(ok2, c)
+						}
+					}
+					op = c09Op{Op: "revert", N: ok2[r.Intn(len(ok2))]}
+				case k < 82:
+					op = c09Op{Op: "save"}
+				case k < 90:
+					op = c09Op{Op: "load-again"}
+				default:
+					op = c09Op{Op: "reload"}
+				}
+				ops = append(ops, op)
 				ok = step(op)
 			}
-		}
-		if base > 0 && ok {
-			ok = step(ops[len(ops)-1])
-		}
-		for i := 0; ok && i < nops; i++ {
-			tip := len(e.model) - 1
-			var op c09Op
-			switch k := r.Intn(100); {
-			case k < 35:
-				adds := []int{1, 1, 2, 3, 5, 998, 1000, 1001}
-				a := adds[r.Intn(len(adds))]
-				if tip+a > 3300 {
-					a = 1
-				}
-				op = c09Op{Op: "add", N: a}
-			case k < 70:
-				// revert target: around boundaries below tip, tip, tip-1, 0, sometimes above tip
-				cands := []int{tip, tip - 1, tip - 2, 0, 1, tip + 1}
-				for kk := 1; kk <= 3; kk++ {
-					for d := -2; d <= 2; d++ {
-						cands = append(cands, kk*1000+d)
-					}
-				}
-				var ok2 []int
-				for _, c := range cands {
-					if c >= 0 && c <= tip+1 {
-						ok2 = append(ok2, c)
-					}
-				}
-				op = c09Op{Op: "revert", N: ok2[r.Intn(len(ok2))]}
-			case k < 82:
-				op = c09Op{Op: "save"}
-			case k < 90:
-				op = c09Op{Op: "load-again"}
-			default:
-				op = c09Op{Op: "reload"}
+			rep.Event("probes", int64(len(ops)))
+			rep.Case(fp, nontrivial)
+			if rep.WantSample() {
+				rep.Sample(map[string]interface{}{"case": ci, "removeMissingIsError": e.store.RemoveMissingIsError, "ops": fmt.Sprint(ops)})
 			}
-			ops = append(ops, op)
-			ok = step(op)
-		}
-		rep.Event("probes", int64(len(ops)))
-		rep.Case(fp, nontrivial)
-		if rep.WantSample() {
-			rep.Sample(map[string]interface{}{"case": ci, "removeMissingIsError": e.store.RemoveMissingIsError, "ops": fmt.Sprint(ops)})
-		}
+		})
 	}
 }
